@@ -352,7 +352,10 @@ fn plan_graph(r: &mut Rng, size_class: u8, allow_negative: bool) -> Planned {
 }
 
 /// Build the real engine; return it with the description of the CURRENT graph (after deletions).
-fn build(plan: &Planned) -> (GraphEngine, GG) {
+
+/// also returns the ids of the nodes that were created and then deleted
+fn build_with_deleted(plan: &Planned) -> (GraphEngine, GG, Vec<u64>) {
+    let mut deleted = Vec::new();
     let eng = GraphEngine::new();
     let mut gg = GG::default();
     let mut node_ids = Vec::new();
@@ -370,6 +373,9 @@ fn build(plan: &Planned) -> (GraphEngine, GG) {
         let mut props = HashMap::new();
         if let Some(w) = w {
             props.insert("w".to_string(), if *wf { PropertyValue::Float(*w as f64) } else { PropertyValue::Int(*w) });
+        } else if *wf {
+            // a non-numeric weight property counts as a missing one (default weight 1)
+            props.insert("w".to_string(), PropertyValue::String("7".to_string()));
         }
         if let Some(p) = p {
             props.insert("p".to_string(), PropertyValue::Int(*p));
@@ -391,11 +397,12 @@ fn build(plan: &Planned) -> (GraphEngine, GG) {
         let id = node_ids[*k];
         if gg.has(id) {
             eng.delete_node(id).expect("delete_node");
+            deleted.push(id);
             gg.nodes.retain(|x| x.0 != id);
             gg.edges.retain(|e| e.src != id && e.dst != id);
         }
     }
-    (eng, gg)
+    (eng, gg, deleted)
 }
 
 fn load_model(m: &mut Model, g: &GG) -> bool {
@@ -1435,6 +1442,99 @@ fn dir_name(d: Direction) -> &'static str {
     }
 }
 
+/// `edges_of` and `neighbors`: the public views of the stored adjacency every search runs on.
+fn do_adjacency(c: &mut Ctx, n: u64, dir: Direction, etype: Option<u8>, f: &Filt) {
+    let g = c.g;
+    let tag = c.tag.clone();
+    // ---- edges_of
+    {
+        let line = format!("edgesof {} {}", n, dir_name(dir));
+        let res = c.eng.edges_of(n, dir);
+        let imp = match &res {
+            Ok(es) => format!("ok {}", ids(&es.iter().map(|e| e.id).collect::<Vec<_>>())),
+            Err(GraphError::NodeNotFound(x)) => format!("nonode {x}"),
+            Err(e) => format!("err {e:?}"),
+        };
+        let model = c.m.ask(&line);
+        let key = format!("{}|{}", tag, line);
+        c.rep.case("edges_of", if g.has(n) { Some(&key) } else { None });
+        c.rep.compare("edges_of", || qjson(g, &tag, &line), &imp, &model);
+        if let Ok(es) = &res {
+            let out = dir == Direction::Outgoing || dir == Direction::Both;
+            let inc = dir == Direction::Incoming || dir == Direction::Both;
+            let want: Vec<u64> = g
+                .edges
+                .iter()
+                .filter(|e| (out && (e.src == n || (!e.directed && e.dst == n))) || (inc && (e.dst == n || (!e.directed && e.src == n))))
+                .map(|e| e.id)
+                .collect();
+            let mut want = want;
+            want.sort_unstable();
+            let got: Vec<u64> = es.iter().map(|e| e.id).collect();
+            let records_ok = es.iter().all(|e| g.edge(e.id).map_or(false, |x| x.src == e.from && x.dst == e.to && x.directed == e.directed));
+            if got != want {
+                viol(c.rep, "graph_engine.edges_of/wrong_set", &format!("got {got:?} want {want:?}"), qjson(g, &tag, &line));
+            } else if !records_ok {
+                viol(c.rep, "graph_engine.edges_of/wrong_record", &imp, qjson(g, &tag, &line));
+            }
+            c.rep.hit("edges_of.ok");
+        } else {
+            c.rep.hit("edges_of.nonode");
+        }
+    }
+    // ---- neighbors
+    {
+        let line = format!(
+            "nbrs {} {} {} {} {}",
+            n,
+            dir_name(dir),
+            etype.map_or("-".to_string(), |t| t.to_string()),
+            Filt::conds(&f.node),
+            Filt::conds(&f.edge)
+        );
+        let rf = f.real();
+        let et = etype.map(|t| format!("t{t}"));
+        let res = c.eng.neighbors(n, et.as_deref(), dir, rf.as_ref());
+        let (imp, got) = match &res {
+            Ok(ns) => {
+                let v: Vec<u64> = ns.iter().map(|x| x.id).collect();
+                (format!("ok {}", ids(&v)), Some(v))
+            }
+            Err(GraphError::NodeNotFound(x)) => (format!("nonode {x}"), None),
+            Err(e) => (format!("err {e:?}"), None),
+        };
+        let model = c.m.ask(&line);
+        let key = format!("{}|{}", tag, line);
+        c.rep.case("neighbors", if g.has(n) { Some(&key) } else { None });
+        c.rep.compare("neighbors", || qjson(g, &tag, &line), &imp, &model);
+        if let Some(got) = got {
+            let mut want: BTreeSet<u64> = BTreeSet::new();
+            for e in &g.edges {
+                if etype.map_or(false, |t| t != e.etype) || !f.edge_ok(e) {
+                    continue;
+                }
+                for v in dir_step(e, n, dir) {
+                    if v != n && g.has(v) && f.node_ok(g, v) {
+                        want.insert(v);
+                    }
+                }
+            }
+            let want: Vec<u64> = want.into_iter().collect();
+            c.rep.hit(if got.is_empty() { "nbrs.empty" } else { "nbrs.some" });
+            if !f.is_none() {
+                c.rep.hit("nbrs.filtered");
+            }
+            if got != want {
+                let extra: Vec<u64> = got.iter().copied().filter(|x| !want.contains(x)).collect();
+                let kind = if !extra.is_empty() { "node_not_a_neighbour" } else { "node_missing" };
+                viol(c.rep, &format!("graph_engine.neighbors/{kind}"), &format!("got {got:?} want {want:?}"), qjson(g, &tag, &line));
+            }
+        } else {
+            c.rep.hit("nbrs.nonode");
+        }
+    }
+}
+
 fn do_traverse(c: &mut Ctx, s: u64, dir: Direction, md: usize, etype: Option<u8>, f: &Filt) {
     let g = c.g;
     let tag = c.tag.clone();
@@ -1789,7 +1889,7 @@ fn do_algorithms(c: &mut Ctx, etype: Option<u8>) {
 }
 
 fn run_graph(plan: &Planned, m: &mut Model, rep: &mut Report, r: &mut Rng, budget: &Budget) {
-    let (eng, g) = build(plan);
+    let (eng, g, deleted) = build_with_deleted(plan);
     let negative = g.edges.iter().any(|e| e.w.map_or(false, |w| w < 0));
     let tag = format!("{}:{:?}:n{}e{}", plan.shape, plan.wprofile, g.nodes.len(), g.edges.len());
     if !load_model(m, &g) {
@@ -1820,10 +1920,24 @@ fn run_graph(plan: &Planned, m: &mut Model, rep: &mut Report, r: &mut Rng, budge
     if rep.samples.len() < 3 {
         rep.sample(json!({"shape": tag, "graph": g.to_json()}));
     }
+    let mut rep_hit_deleted = false;
     let mut c = Ctx { eng: &eng, g: &g, m, rep, tag };
     let mut all: Vec<u64> = g.nodes.iter().map(|x| x.0).collect();
     let ghost = all.iter().copied().max().unwrap_or(0) + 7;
-    all.push(ghost); // a node id that does not exist
+    all.push(ghost); // a node id that never existed
+    for d in &deleted {
+        // an id that existed and was deleted (its adjacency keys may linger in the store)
+        if !all.contains(d) {
+            all.push(*d);
+            rep_hit_deleted = true;
+        }
+    }
+    if rep_hit_deleted {
+        c.rep.hit("query.deleted_node");
+    }
+    if plan.edges.iter().any(|e| e.4.is_none() && e.5) {
+        c.rep.hit("weights.non_numeric_property");
+    }
     let none = Filt::default();
     // ---- find_path, every ordered pair (plus the missing node)
     for &s in &all {
@@ -1895,6 +2009,14 @@ fn run_graph(plan: &Planned, m: &mut Model, rep: &mut Report, r: &mut Rng, budge
     let d_ap = t_ap.elapsed();
     // ---- traversals
     let dirs = [Direction::Outgoing, Direction::Incoming, Direction::Both];
+    // ---- the stored adjacency itself: edges_of / neighbors of every node in every direction
+    for &s in &all {
+        for &dir in &dirs {
+            let etype = if r.chance(1, 3) { Some(r.below(3) as u8) } else { None };
+            let f = if r.chance(1, 3) { gen_filter(r) } else { Filt::default() };
+            do_adjacency(&mut c, s, dir, etype, &f);
+        }
+    }
     for &s in &all {
         for &dir in &dirs {
             for md in [0usize, 1, 2, 3, 5, 64] {
@@ -2029,6 +2151,10 @@ fn main() {
         "vpaths.ok", "vpaths.empty", "vpaths.cycles", "vpaths.nonode",
         "graph.self_loop", "graph.parallel_edges", "graph.disconnected", "graph.mixed_direction", "graph.after_deletions",
         "triangles.some", "allpaths.ok", "allpaths.none", "allpaths.multi", "astar.ok",
+        "allpaths.capped", "allwpaths.ok", "allwpaths.none", "allwpaths.multi", "allwpaths.capped", "allwpaths.set_checked",
+        "allwpaths.zero_weight_graph", "mst.forest", "mst.tree", "components.1", "components.2", "kcore.degeneracy.0",
+        "kcore.degeneracy.2", "triangles.zero", "nbrs.some", "nbrs.empty", "nbrs.filtered", "nbrs.nonode", "edges_of.ok",
+        "edges_of.nonode", "query.deleted_node", "weights.non_numeric_property",
     ]
     .iter()
     .map(|s| s.to_string())
